@@ -27,7 +27,10 @@ def main():
             if code != 0:
                 print(tail)
                 rc = 1
-    sys.exit(rc)
+    # every check rebuilds what it needs and reports a broken build itself (as broken obligations);
+    # a project that does not build must not stop the other engines from being set up
+    print("setup finished; projects with build problems are reported by their own checks" if rc else "setup ok")
+    sys.exit(0)
 
 
 if __name__ == "__main__":
